@@ -5,7 +5,8 @@
   Model: Cello/Hash.lean. Source-derived facts: CelloGen/Hash.lean (constants, step lists and tail table of `hash_data`, whether
   `Float_Hash` normalises zero, the body of `Float_Cmp` as a program over `double`, whether the container `Assign`s return at
   once for `self is obj`, the folds of the five container hashes, the offsets and widths with which Tree, Table and Array move
-  the elements they hold) — regenerated from /repo on every run, so a source change that falsifies a statement below stops
+  the elements they hold, the body of `memswap` as a program of blocks over the remaining count, the number of fields of the
+  structs `swap` exchanges) — regenerated from /repo on every run, so a source change that falsifies a statement below stops
   this file from compiling.
 -/
 import Cello.Hash
@@ -23,11 +24,12 @@ import CelloProofs.Lemmas.HashMove
 import CelloProofs.Lemmas.HashShape
 import CelloProofs.Lemmas.HashTableW
 import CelloProofs.Lemmas.HashLookup
+import CelloProofs.Lemmas.HashSwap
 set_option linter.unusedSimpArgs false
 set_option linter.unusedVariables false
 
 namespace Cello.Hash
-open CelloGen.Hash (Comb FExpr FCond FStmt FRet)
+open CelloGen.Hash (Comb FExpr FCond FStmt FRet SwPtr SwStmt SwBlock)
 
 /-! ## hash_data -/
 
@@ -268,8 +270,8 @@ theorem C10_eq_hash (addr : Nat → Bytes) (st : Store) (a b : Val) (hna : a.nan
 
 /-- non-vacuity with wide entries: two Trees of different shapes holding the same Int → 24-byte-struct pairs are eq -/
 example : valCmp (fun _ => []) #[]
-    (.tree .int (.raw 6) (.node (.node .nil (.int 8, .raw 6 (List.replicate 24 8)) .nil) (.int 3, .raw 6 (List.replicate 24 3)) .nil))
-    (.tree .int (.raw 6) (.node .nil (.int 8, .raw 6 (List.replicate 24 8)) (.node .nil (.int 3, .raw 6 (List.replicate 24 3)) .nil))) = some 0 := by
+    (.tree .int (.raw 24) (.node (.node .nil (.int 8, .raw 24 (List.replicate 24 8)) .nil) (.int 3, .raw 24 (List.replicate 24 3)) .nil))
+    (.tree .int (.raw 24) (.node .nil (.int 8, .raw 24 (List.replicate 24 8)) (.node .nil (.int 3, .raw 24 (List.replicate 24 3)) .nil))) = some 0 := by
   decide
 
 /-- non-vacuity: an Array and a List with the elements 1, 2 are eq -/
@@ -316,11 +318,11 @@ theorem C10_tree_rem_relocates_whole_entry (L : Layout) (pred node : Scalar × S
 
 /-- an Int key with a 24-byte value: one key word, three value words -/
 def wideL : Layout := ⟨2, 1, 3⟩
-def wideA : Scalar × Scalar := (.int 7, .raw 6 [1, 0, 0, 0, 0, 0, 0, 0, 2, 0, 0, 0, 0, 0, 0, 0, 3, 0, 0, 0, 0, 0, 0, 0])
-def wideB : Scalar × Scalar := (.int 9, .raw 6 [4, 0, 0, 0, 0, 0, 0, 0, 5, 0, 0, 0, 0, 0, 0, 0, 6, 0, 0, 0, 0, 0, 0, 0])
+def wideA : Scalar × Scalar := (.int 7, .raw 24 [1, 0, 0, 0, 0, 0, 0, 0, 2, 0, 0, 0, 0, 0, 0, 0, 3, 0, 0, 0, 0, 0, 0, 0])
+def wideB : Scalar × Scalar := (.int 9, .raw 24 [4, 0, 0, 0, 0, 0, 0, 0, 5, 0, 0, 0, 0, 0, 0, 0, 6, 0, 0, 0, 0, 0, 0, 0])
 
 /-- a 24-byte value whose three words all differ and depend on `n` -/
-def wv (n : UInt8) : Scalar := .raw 6 [n, 0, 0, 0, 0, 0, 0, 0, n, 1, 0, 0, 0, 0, 0, 0, n, 2, 0, 0, 0, 0, 0, 0]
+def wv (n : UInt8) : Scalar := .raw 24 [n, 0, 0, 0, 0, 0, 0, 0, n, 1, 0, 0, 0, 0, 0, 0, n, 2, 0, 0, 0, 0, 0, 0]
 
 example : EntrySized wideL wideA ∧ EntrySized wideL wideB := by decide
 
@@ -405,10 +407,10 @@ theorem C10_table_ops_any_width (addr : Nat → Bytes) (L : Layout) (t : Table) 
 
 /-- non-vacuity: a Table with Int keys (colliding in slot 4 of 5) and 24-byte values is well-sized, and removing the first
     entry shifts the second back whole -/
-example : TableSized (layoutOf .int (.raw 6)) (tableOfEntries (fun _ => []) [(.int 4, wv 1), (.int 9, wv 2)]) :=
+example : TableSized (layoutOf .int (.raw 24)) (tableOfEntries (fun _ => []) [(.int 4, wv 1), (.int 9, wv 2)]) :=
   (tableOfEntriesW_eq _ _ _ (by decide)).2
 
-example : (tableRemW (fun _ => []) (layoutOf .int (.raw 6)) (tableOfEntries (fun _ => []) [(.int 4, wv 1), (.int 9, wv 2)]) (.int 4)).map
+example : (tableRemW (fun _ => []) (layoutOf .int (.raw 24)) (tableOfEntries (fun _ => []) [(.int 4, wv 1), (.int 9, wv 2)]) (.int 4)).map
     Table.entries = some [(.int 9, wv 2)] := by decide
 
 /-- **`Array_Pop_At` / `Array_Push_At` close and open exactly one element slot**: the memmoves of the source, on elements of any
@@ -422,8 +424,8 @@ theorem C10_array_moves_whole_elements (L : Layout) (A B : List Scalar) (x y : S
     · simp [hz]))⟩
 
 /-- non-vacuity: 12-byte elements (two words in an Array: `Array_Size_Round`), popping the middle one -/
-example : arrayPopAt ⟨2, 0, 2⟩ [.raw 3 [1,2,3,4,5,6,7,8,9,10,11,12], .raw 3 [0,0,0,0,0,0,0,0,0,0,0,1], .raw 3 [9,9,9,9,9,9,9,9,9,9,9,9]] 1 =
-    [.raw 3 [1,2,3,4,5,6,7,8,9,10,11,12], .raw 3 [9,9,9,9,9,9,9,9,9,9,9,9]] := by decide
+example : arrayPopAt ⟨2, 0, 2⟩ [.raw 12 [1,2,3,4,5,6,7,8,9,10,11,12], .raw 12 [0,0,0,0,0,0,0,0,0,0,0,1], .raw 12 [9,9,9,9,9,9,9,9,9,9,9,9]] 1 =
+    [.raw 12 [1,2,3,4,5,6,7,8,9,10,11,12], .raw 12 [9,9,9,9,9,9,9,9,9,9,9,9]] := by decide
 
 /-! ## copy and assign -/
 
@@ -626,7 +628,7 @@ theorem C10_type_copy_refused (addr : Nat → Bytes) (st : Store) (n m : Bytes) 
     assignVal addr st cls (.sc (.typ n)) (.sc (.typ m)) = .error .valueError := ⟨rfl, rfl⟩
 
 /-- non-vacuity for Trees: a two-entry Tree (keys 55 > 0, 24-byte values) is well formed -/
-example : SrcWellFormed (fun _ => []) #[] (.tree .int (.raw 6)
+example : SrcWellFormed (fun _ => []) #[] (.tree .int (.raw 24)
     (.node (.node .nil (.int 55, wideA.2) .nil) (.int 0, wideB.2) .nil)) := by
   simp [SrcWellFormed, Sh.toList, TreeSeq, Desc, scalarCmp, Scalar.ty, Scalar.isNaN]; decide
 
@@ -762,40 +764,103 @@ theorem C10_table_order_refuted :
     valHash (fun _ => []) #[] (.table .int .int a) = valHash (fun _ => []) #[] (.table .int .int b) := by
   decide
 
-/-! ## swap -/
+/-! ## swap: `memswap` as it is in the source, for objects of every size -/
 
-/-- **swap(a, b) exchanges the two values** (byte-wise `memswap` of the two structs): afterwards `a` holds what `b` held and
-    vice versa, each object keeps its place and allocation class, every other object is untouched; `swap(a, a)` changes
-    nothing. Values and containers alike (the value is whatever the struct holds: number, buffer pointer, slot array…). -/
-theorem C10_swap_exchanges (st : Store) (a b : Nat) (oa ob : Obj) (ha : st.get a = some oa) (hb : st.get b = some ob) :
-    (swapObjs st a b).get a = some { oa with val := ob.val } ∧
-    (swapObjs st a b).get b = some { ob with val := oa.val } ∧
-    (∀ c, c ≠ a → c ≠ b → (swapObjs st a b).get c = st.get c) := by
+/-- **`memswap` as it stands in src/Assign.c has the shape of a swap**: the blocks the translator extracts are exchange steps
+    (load a temporary from one object, copy across, store the temporary into the other — one width throughout; both cursors and
+    the count move by that width, under a guard `s >= k` with `k` at least the width) closed by a byte loop that runs until
+    nothing is left. A stage that forgets to advance a cursor or to decrement the count, a loop that leaves a remainder, a
+    store that reads the wrong source: another program, and this stops compiling. -/
+theorem C10_memswap_source_shape : swapOk CelloGen.Hash.memswapProg = true := by decide
+
+/-- **swapping two n-byte objects exchanges them — for every n** and whatever the bytes are: `memswap`, as extracted from the
+    source and run statement by statement, never leaves the two objects, ends, and leaves `p0` holding what `p1` held and vice
+    versa. (Proved for every program of the shape `swapOk`: `swapProg_exchanges`.) -/
+theorem C10_memswap_exchanges {β : Type} (x y : List β) (h : x.length = y.length) : memswapSrc x y = some (y, x) :=
+  swapProg_exchanges _ C10_memswap_source_shape x y h
+
+example : memswapSrc [1, 2, 3, 4, 5, 6] [11, 12, 13, 14, 15, 16] = some ([11, 12, 13, 14, 15, 16], [1, 2, 3, 4, 5, 6]) :=
+  C10_memswap_exchanges _ _ rfl
+
+/-- the byte loop: `for (size_t i = 0; i < s; i++) { char t = p0[i]; p0[i] = p1[i]; p1[i] = t; }` -/
+def byteLoopProg : List SwBlock := [.forIdx 1 [.load .a true 1, .move .a .b true 1, .store .b true 1]]
+
+/-- a word-wise `memswap`: whole 64-bit words, then at most one 32-bit half word, then the remaining bytes
+    (`while (s >= 8) { …; a += 8; b += 8; s -= 8; }  if (s >= 4) { …; a += 4; b += 4; s -= 4; }
+    while (s--) { char t = *a; *a++ = *b; *b++ = t; }`) -/
+def wordWiseProg : List SwBlock := [
+  .whileGe 8 [.load .a false 8, .move .a .b false 8, .store .b false 8, .adv .a 8, .adv .b 8, .dec 8],
+  .ifGe 4 [.load .a false 4, .move .a .b false 4, .store .b false 4, .adv .a 4, .adv .b 4, .dec 4],
+  .whileDec [.load .a false 1, .move .a .b false 1, .adv .a 1, .store .b false 1, .adv .b 1]]
+
+/-- **a correct word-wise rewrite is proved, not rejected**: the three-stage program exchanges objects of every size too, by the
+    same theorem — were the source rewritten this way, `C10_memswap_source_shape` and everything below would still check -/
+theorem C10_memswap_wordwise_exchanges {β : Type} (x y : List β) (h : x.length = y.length) :
+    runSwapProg byteLoopProg x y = some (y, x) ∧ runSwapProg wordWiseProg x y = some (y, x) :=
+  ⟨swapProg_exchanges _ (by decide) x y h, swapProg_exchanges _ (by decide) x y h⟩
+
+/-- the same three stages with a half-word stage that decrements the count but leaves both cursors where they were -/
+def staleCursorProg : List SwBlock := [
+  .whileGe 8 [.load .a false 8, .move .a .b false 8, .store .b false 8, .adv .a 8, .adv .b 8, .dec 8],
+  .ifGe 4 [.load .a false 4, .move .a .b false 4, .store .b false 4, .dec 4],
+  .whileDec [.load .a false 1, .move .a .b false 1, .adv .a 1, .store .b false 1, .adv .b 1]]
+
+/-- whole words only: `for (i = 0; i < s / 8; i++) { uintptr_t t = w0[i]; w0[i] = w1[i]; w1[i] = t; }` -/
+def wordsOnlyProg : List SwBlock := [.forIdx 8 [.load .a true 8, .move .a .b true 8, .store .b true 8]]
+
+/-- does `prog` exchange two `n`-byte objects (followed byte by byte)? -/
+def exchangesSize (prog : List SwBlock) (n : Nat) : Bool :=
+  runSwapProg prog (tagBytes false n) (tagBytes true n) == some (tagBytes true n, tagBytes false n)
+
+/-- **a stage that does not advance its cursors is refuted, exactly on the sizes 5, 6, 7 modulo 8**: the program is not of the
+    shape `swapOk`; run by the model it exchanges an `n`-byte object (n < 48) precisely when `n % 8 < 5`; two 6-byte structs end
+    up holding a mixture (bytes 2, 3 exchanged, the rest not). Whole words only: refuted on every size that is not a multiple
+    of 8. (The byte loop and the correct word-wise program exchange every size: `C10_memswap_wordwise_exchanges`.) -/
+theorem C10_memswap_stale_cursor_refuted :
+    swapOk staleCursorProg = false ∧ swapOk wordsOnlyProg = false ∧
+    (∀ n < 48, exchangesSize staleCursorProg n = decide (n % 8 < 5)) ∧
+    (∀ n < 48, exchangesSize wordsOnlyProg n = decide (n % 8 = 0)) ∧
+    runSwapProg staleCursorProg [1, 2, 3, 4, 5, 6] [11, 12, 13, 14, 15, 16] = some ([1, 2, 13, 14, 5, 6], [11, 12, 3, 4, 15, 16]) := by
+  refine ⟨by decide, by decide, by decide +kernel, by decide +kernel, by decide⟩
+
+/-- **swap(a, b) exchanges the two values** (`memswap` of the two structs, as extracted from the source, run on the struct of
+    the value: a plain struct of any size is its bytes; any other struct — a number, a buffer pointer, the fields of a
+    container — is followed byte by byte): afterwards `a` holds what `b` held and vice versa, each object keeps its place and
+    allocation class, every other object is untouched; `swap(a, a)` changes nothing. -/
+theorem C10_swap_exchanges (st : Store) (a b : Nat) (oa ob : Obj) (ha : st.get a = some oa) (hb : st.get b = some ob)
+    (hc : SwapCompatible oa.val ob.val) :
+    ∃ st', swapObjs st a b = some st' ∧
+      st'.get a = some { oa with val := ob.val } ∧
+      st'.get b = some { ob with val := oa.val } ∧
+      (∀ c, c ≠ a → c ≠ b → st'.get c = st.get c) := by
   have hla := Store.get_lt ha
   have hlb := Store.get_lt hb
-  simp only [swapObjs, ha, hb]
-  refine ⟨?_, ?_, ?_⟩
-  · by_cases hab : a = b
-    · subst hab
-      have : oa = ob := by rw [ha] at hb; exact Option.some.inj hb
-      subst this
-      rw [Store.get_set_same _ _ _ (by simpa using hla)]
+  by_cases hab : a = b
+  · subst hab
+    have : oa = ob := by rw [ha] at hb; exact Option.some.inj hb
+    subst this
+    exact ⟨st, by simp [swapObjs], ha, ha, fun c _ _ => rfl⟩
+  · have hv := swapVals_exchanges (fun x y h => C10_memswap_exchanges x y h) oa.val ob.val hc
+    have hs : swapObjs st a b = some ((st.setIfInBounds a (some { oa with val := ob.val })).setIfInBounds b
+        (some { ob with val := oa.val })) := by
+      simp only [swapObjs, hab, if_false, ha, hb, hv, Option.map_some]
+    refine ⟨_, hs, ?_, ?_, ?_⟩
     · rw [Store.get_set_other _ _ _ _ hab, Store.get_set_same _ _ _ hla]
-  · rw [Store.get_set_same _ _ _ (by simpa using hlb)]
-  · intro c hca hcb
-    rw [Store.get_set_other _ _ _ _ hcb, Store.get_set_other _ _ _ _ hca]
+    · rw [Store.get_set_same _ _ _ (by simpa using hlb)]
+    · intro c hca hcb
+      rw [Store.get_set_other _ _ _ _ hcb, Store.get_set_other _ _ _ _ hca]
 
 /-- hence the hashes are exchanged too (for a Tuple the hash is taken through the item pointers, which `swap` of two other
     objects does not touch; stated here for values that hold their elements themselves) -/
 theorem C10_swap_hashes (addr : Nat → Bytes) (st : Store) (a b : Nat) (oa ob : Obj)
-    (ha : st.get a = some oa) (hb : st.get b = some ob)
+    (ha : st.get a = some oa) (hb : st.get b = some ob) (hc : SwapCompatible oa.val ob.val)
     (hta : ∀ ids, oa.val ≠ .tuple ids) (htb : ∀ ids, ob.val ≠ .tuple ids) :
-    ∃ na nb, (swapObjs st a b).get a = some na ∧ (swapObjs st a b).get b = some nb ∧
+    ∃ st' na nb, swapObjs st a b = some st' ∧ st'.get a = some na ∧ st'.get b = some nb ∧
       na.cls = oa.cls ∧ nb.cls = ob.cls ∧
-      valHash addr (swapObjs st a b) na.val = valHash addr st ob.val ∧
-      valHash addr (swapObjs st a b) nb.val = valHash addr st oa.val := by
-  obtain ⟨h1, h2, _⟩ := C10_swap_exchanges st a b oa ob ha hb
-  refine ⟨_, _, h1, h2, rfl, rfl, ?_, ?_⟩
+      valHash addr st' na.val = valHash addr st ob.val ∧
+      valHash addr st' nb.val = valHash addr st oa.val := by
+  obtain ⟨st', hs, h1, h2, _⟩ := C10_swap_exchanges st a b oa ob ha hb hc
+  refine ⟨st', _, _, hs, h1, h2, rfl, rfl, ?_, ?_⟩
   · cases hv : ob.val with
     | tuple ids => exact absurd hv (htb ids)
     | sc _ => simp [valHash]
@@ -809,8 +874,49 @@ theorem C10_swap_hashes (addr : Nat → Bytes) (st : Store) (a b : Nat) (oa ob :
     | table _ _ _ => simp [valHash]
     | tree _ _ _ => simp [valHash]
 
-example : (swapObjs #[some ⟨.stack, .sc (.int 1)⟩, some ⟨.heap, .sc (.int 2)⟩] 0 1).get 0 = some ⟨.stack, .sc (.int 2)⟩ :=
-  (C10_swap_exchanges _ 0 1 ⟨.stack, .sc (.int 1)⟩ ⟨.heap, .sc (.int 2)⟩ rfl rfl).1
+example : ∃ st', swapObjs #[some ⟨.stack, .sc (.int 1)⟩, some ⟨.heap, .sc (.int 2)⟩] 0 1 = some st' ∧
+    st'.get 0 = some ⟨.stack, .sc (.int 2)⟩ :=
+  let ⟨st', h, h0, _⟩ := C10_swap_exchanges _ 0 1 ⟨.stack, .sc (.int 1)⟩ ⟨.heap, .sc (.int 2)⟩ rfl rfl (by simp [SwapCompatible])
+  ⟨st', h, h0⟩
+
+/-- 6-byte and 13-byte structs change sides -/
+example : swapScalars (.raw 6 [0x00, 0x1b, 0x44, 0x11, 0x3a, 0xb7]) (.raw 6 [0x52, 0x54, 0x00, 0x12, 0x34, 0x56]) =
+    some (.raw 6 [0x52, 0x54, 0x00, 0x12, 0x34, 0x56], .raw 6 [0x00, 0x1b, 0x44, 0x11, 0x3a, 0xb7]) ∧
+    swapScalars (.raw 13 (List.replicate 13 7)) (.raw 13 (List.replicate 13 9)) =
+    some (.raw 13 (List.replicate 13 9), .raw 13 (List.replicate 13 7)) ∧
+    swapScalars (.str [65]) (.str [66, 67]) = some (.str [66, 67], .str [65]) := by decide
+
+example : SwapCompatible (.sc (.raw 13 (List.replicate 13 7))) (.sc (.raw 13 (List.replicate 13 9))) := by
+  simp [SwapCompatible]
+
+/-! ## sort: every element move of `Array_Sort_Partition` is a `swap` -/
+
+/-- the elements of an Array are of one type and size -/
+def SameSized (items : List Scalar) : Prop := ∀ x ∈ items, ∀ y ∈ items, SwapCompatible (.sc x) (.sc y)
+
+/-- **`sort` of an Array of elements of any size leaves a permutation of the elements, hence the same hash**: the quicksort of
+    src/Array.c, whose every element move is a `swap` of two element structs through `memswap` as extracted, never reads outside
+    the Array, ends, loses and invents no element (structs of 5, 6, 7 … bytes included: `C10_memswap_exchanges` holds for every
+    size) — so the container hash, a function of the multiset of element hashes, is what it was. -/
+theorem C10_sort_keeps_elements_and_hash (addr : Nat → Bytes) (items : List Scalar) (h : SameSized items) :
+    ∃ out, arraySort addr items = some out ∧ out.Perm items ∧
+      seqHash CelloGen.Hash.arrayComb (scalarHash addr) out = seqHash CelloGen.Hash.arrayComb (scalarHash addr) items := by
+  have hsw : ∀ x y, x ∈ items → y ∈ items → swapScalars x y = some (y, x) := by
+    intro x y hx hy
+    unfold swapScalars
+    rw [swapVals_exchanges (fun x y h => C10_memswap_exchanges x y h) (.sc x) (.sc y) (h x hx y hy)]
+  obtain ⟨out, e, p⟩ := sortW_perm (scalarLt addr) items hsw
+  exact ⟨out, e, p, seqHash_perm _ _ p⟩
+
+/-- non-vacuity: three 6-byte structs are sorted by `memcmp` order; with the stale-cursor `memswap` the first swap would
+    already mix two of them -/
+example : arraySort (fun _ => []) [.raw 6 [3, 0, 0, 0, 0, 3], .raw 6 [1, 0, 0, 0, 0, 1], .raw 6 [2, 0, 0, 0, 0, 2]] =
+    some [.raw 6 [1, 0, 0, 0, 0, 1], .raw 6 [2, 0, 0, 0, 0, 2], .raw 6 [3, 0, 0, 0, 0, 3]] := by decide
+
+example : SameSized [.raw 6 [3, 0, 0, 0, 0, 3], .raw 6 [1, 0, 0, 0, 0, 1]] := by
+  intro x hx y hy
+  simp only [List.mem_cons, List.mem_nil_iff, or_false] at hx hy
+  rcases hx with rfl | rfl <;> rcases hy with rfl | rfl <;> simp [SwapCompatible]
 
 end Cello.Hash
 
